@@ -317,9 +317,19 @@ def main():
     else:
         try:
             res = GRIDS[a.pid](a.tier, a.seed)
-        except Exception:  # noqa: BLE001  (an exception escaping the harness is a checker error, never silence)
+        except Exception as ex:  # noqa: BLE001  (an exception escaping the harness is never silence)
             import traceback
-            res = dict(evaluations=0, distinct_nontrivial=0, rule="harness raised", samples=[], failures=[], errors=[dict(what="L3 harness raised: " + traceback.format_exc()[-900:])])
+            tb = traceback.extract_tb(ex.__traceback__)
+            repo = os.path.realpath(os.environ.get("FJVC_REPO", "/repo"))
+            in_repo = [fr for fr in tb if os.path.realpath(fr.filename).startswith(repo + os.sep)]
+            if in_repo and os.path.realpath(tb[-1].filename).startswith((repo + os.sep, "/venv/")) and not isinstance(ex, (MemoryError, KeyboardInterrupt)):
+                # raised from inside the library on a configuration every run of this grid builds and uses successfully on
+                # the recorded baseline: the code under test rejects / crashes on a valid configuration
+                fr = in_repo[-1]
+                res = dict(evaluations=1, distinct_nontrivial=1, rule="grid aborted by an exception raised inside the library", samples=[],
+                           failures=[dict(what=f"the library raised {type(ex).__name__}: {str(ex)[:200]} at {os.path.relpath(fr.filename, repo)}:{fr.lineno} ({fr.name}) while the bounded grid built / used a valid configuration", case=dict(traceback=traceback.format_exc()[-600:]))], errors=[])
+            else:
+                res = dict(evaluations=0, distinct_nontrivial=0, rule="harness raised", samples=[], failures=[], errors=[dict(what="L3 harness raised: " + traceback.format_exc()[-900:])])
         viol = []
         os.makedirs(os.path.join(VERIF, "replays"), exist_ok=True)
         for i, f in enumerate(res.pop("failures", [])):
